@@ -50,7 +50,14 @@ class _InlineThread:
         self.daemon = True
 
     def start(self):
-        self.target(*self.args)
+        try:
+            self.target(*self.args)
+        except PrefetcherStalled:
+            pass            # the real thread would spin in its busy loop; the reader carries on
+
+
+class PrefetcherStalled(Exception):
+    pass
 
 
 def put_case():
